@@ -60,7 +60,7 @@ def _case(draw):
     w['extras'] = ['SimpleClouds'] if family == 'transmission' else []      # a cloud deck blanks the emission spectrum
     w['fill'] = ['H2', 'He']
     return {'world': w, 'sampler': sampler, 'family': family, 'fitted': list(fitted), 'priors': pri, 'obs': obs,
-            'points': pts, 'ngauss': draw(st.integers(1, 3))}
+            'points': pts, 'ngauss': draw(st.integers(1, 3)), 'retarget': draw(st.sampled_from([True, False, False]))}
 
 
 def strategy(tier):
@@ -170,6 +170,19 @@ def check(case):
             oval = np.asarray(obs.spectrum, dtype=float)
             oerr = np.asarray(obs.errorBar, dtype=float)
             # ---- optimizer -----------------------------------------------------------------------------
+            # history: the optimizer is first bound to a DIFFERENT observation (other bin layout) and
+            # then re-targeted with set_observed(); the callbacks must refer to the current one
+            retarget = bool(case.get('retarget'))
+            final_obs = obs
+            if retarget:
+                out.cls('retargeted')
+                o2 = dict(case['obs'])
+                o2['nb'] = 3 if case['obs']['nb'] != 3 else 5
+                for k_ in ('noise', 'err', 'wfac'):
+                    o2[k_] = list(np.resize(np.array(case['obs'][k_], dtype=float), o2['nb']))
+                o2['perm'] = list(range(o2['nb']))[::-1]
+                o2['pos'] = 1.0 - case['obs']['pos']
+                obs = make_observation(out, o2, native, nspec * 1.7, w)
             if sampler == 'nestle':
                 opt = cut(out, 'optimizer', NestleOptimizer, observed=obs, model=m, num_live_points=10)
             elif sampler == 'multinest':
@@ -178,6 +191,9 @@ def check(case):
             else:
                 mod = importlib.import_module('taurex.optimizer.polychord')
                 opt = cut(out, 'optimizer', mod.PolyChordOptimizer, polychord_path=tmpdir, observed=obs, model=m)
+            if retarget:
+                cut(out, 'set_observed', opt.set_observed, final_obs)
+                obs = final_obs
             roles = [r for r in case['fitted'] if param_name(r, w) is not None and param_name(r, w) in m.fittingParameters]
             for p in list(m.fittingParameters):
                 opt.disable_fit(p)
